@@ -62,7 +62,7 @@ func parseLemmaFile(path string) ([]*lemmaDef, error) {
 				return nil, fmt.Errorf("%s:%d: props outside lemma", path, i+1)
 			}
 			cur.props = strings.FieldsFunc(rest, func(r rune) bool { return r == ' ' || r == ',' })
-		case "var", "assume", "snap", "call", "havoc", "assert", "let", "note":
+		case "var", "assume", "snap", "call", "havoc", "assert", "let", "note", "reveal":
 			if cur == nil {
 				return nil, fmt.Errorf("%s:%d: statement outside lemma", path, i+1)
 			}
@@ -140,6 +140,13 @@ func (eng *Engine) runLemma(file string, d *lemmaDef) (qs []*Query, trusted []st
 		}
 		switch s.kind {
 		case "note":
+		case "reveal":
+			if env.reveal == nil {
+				env.reveal = map[string]bool{}
+			}
+			for _, n := range strings.FieldsFunc(s.text, func(r rune) bool { return r == ' ' || r == ',' }) {
+				env.reveal[n] = true
+			}
 		case "var":
 			f := strings.Fields(s.text)
 			if len(f) != 2 {
@@ -166,7 +173,9 @@ func (eng *Engine) runLemma(file string, d *lemmaDef) (qs []*Query, trusted []st
 			if perr != nil {
 				fail("%v", perr)
 			}
-			st.assume(env.boolTerm(e))
+			sub := *env
+			sub.pol = -1
+			st.assume(sub.boolTerm(e))
 		case "snap":
 			snaps[strings.TrimSpace(s.text)] = st.snapshot()
 		case "havoc":
@@ -192,7 +201,9 @@ func (eng *Engine) runLemma(file string, d *lemmaDef) (qs []*Query, trusted []st
 			if perr != nil {
 				fail("%v", perr)
 			}
-			g := env.boolTerm(e)
+			sub := *env
+			sub.pol = 1
+			g := sub.boolTerm(e)
 			x.oblige(st, f[0], d.props, g, f[1])
 		case "call":
 			steps++
